@@ -13,6 +13,9 @@ import (
 )
 
 func genC31(r *simkit.Rand, tier string, race bool) *simkit.Plan {
+	if !race && r.Chance(0.4) {
+		return genC31Interleaved(r)
+	}
 	p := &simkit.Plan{Knobs: map[string]int64{}}
 	nh := r.Range(1, 3)
 	p.Knobs["hashers"] = int64(nh)
@@ -72,6 +75,9 @@ func newBloom(c *simkit.Ctx) *bloom.Bloom {
 }
 
 func execC31(c *simkit.Ctx) bool {
+	if c.Plan.Arm == "interleaved" {
+		return execC31Interleaved(c)
+	}
 	b := newBloom(c)
 	if b == nil {
 		return false
